@@ -12,7 +12,7 @@ import (
 
 func init() {
 	register(&Rule{ID: "R-prec", Floor: 50, Run: rulePrec,
-		Doc: "the binding-power table TokenKind.Prec and its consumers fix the expression tree (DESIGN Appendix C): (a) the levels assignment < || < && < | < ^ < & < equality < comparison < shift < additive < multiplicative < as < ** form a strict chain (all kinds of a level share one pair, max of a level < min of the next), left<right on every level except ** (left>right: right-associative), and range, call/index, member sit above; (b) the climbing loop of Parser.expression continues exactly while left(current) > minimum (strict); (c) infix and assignment operands are parsed with the operator's RIGHT power, read before the operator is consumed; (d) the prefix operand is parsed with a constant at least as large as every power of the binary levels and below the left power of call, index and member; (e) the tokens with a non-zero left power are exactly the tokens the loop's switch dispatches, and each clause that converts the token into an operator enum only receives kinds in that conversion's domain. Breaking any one changes the tree of some operator pair/triple (C07)."})
+		Doc: "the binding-power table TokenKind.Prec and its consumers fix the expression tree (DESIGN Appendix C): (a) the levels assignment < || < && < | < ^ < & < equality < comparison < shift < additive < multiplicative < as < ** form a strict chain (all kinds of a level share one pair, max of a level < min of the next), left<right on every level except ** (left>right: right-associative), and range, call/index, member sit above; (b) the climbing loop of Parser.expression continues exactly while left(current) > minimum (strict); (c) infix and assignment operands are parsed — by a call of the climbing entry or of a transparent wrapper of it — with the operator's RIGHT power, read before the operator is consumed; (d) the prefix operand is parsed with a constant at least as large as every power of the binary levels and below the left power of call, index and member; (e) the tokens with a non-zero left power are exactly the tokens the loop's switch dispatches, and each clause that converts the token into an operator enum only receives kinds in that conversion's domain. Breaking any one changes the tree of some operator pair/triple (C07)."})
 }
 
 type pxPair struct{ l, r int64 }
@@ -41,12 +41,61 @@ var pxPrecLevels = []struct {
 
 // extractPrec reads kind → (left,right) from TokenKind.Prec.
 func (r *pxRoles) extractPrec() (table map[string]pxPair, def pxPair, fd *ast.FuncDecl, problems []string) {
-	fd = r.c.MustFunc("homescript/lexer", "TokenKind", "Prec")
+	fd = r.decls[r.powerFn()]
+	if fd == nil {
+		fatalf("anchor unresolved: declaration of the binding-power method of lexer.TokenKind")
+	}
 	info := r.lex.info
 	table = map[string]pxPair{}
 	sig := info.Defs[fd.Name].(*types.Func).Type().(*types.Signature)
 	if sig.Results().Len() != 2 {
 		fatalf("TokenKind.Prec does not return (left, right)")
+	}
+	// the table the method denotes: evaluated on every token kind (a switch, an if-chain,
+	// a lookup in a map / array literal, named constants give the same rows). The default
+	// power is the pair of the kinds no operator conversion and no lexeme of a level names:
+	// taken as the most frequent pair. Only when some kind cannot be evaluated is the
+	// switch read syntactically (below).
+	if recv := pxRecvObj(info, fd); recv != nil {
+		rows := map[string]pxPair{}
+		count := map[pxPair]int{}
+		all := true
+		for _, k := range r.kindEnum.Consts {
+			res := pxEvalOn(r.c, fd, recv, k)
+			if !res.ok || len(res.vals) != 2 {
+				all = false
+				break
+			}
+			l, lok := pxValInt(res.vals[0])
+			rr, rok := pxValInt(res.vals[1])
+			if !lok || !rok {
+				all = false
+				break
+			}
+			name := r.canonKindConst(k)
+			if old, dup := rows[name]; dup && old != (pxPair{l, rr}) {
+				problems = append(problems, fmt.Sprintf("kind %s has two entries", name))
+			}
+			if _, dup := rows[name]; !dup {
+				count[pxPair{l, rr}]++
+			}
+			rows[name] = pxPair{l, rr}
+		}
+		if all && len(rows) > 0 {
+			best := -1
+			for p, n := range count {
+				if n > best || (n == best && (p.l < def.l || (p.l == def.l && p.r < def.r))) {
+					best, def = n, p
+				}
+			}
+			for k, p := range rows {
+				if p != def {
+					table[k] = p
+				}
+			}
+			return table, def, fd, problems
+		}
+		problems = nil
 	}
 	var sw *ast.SwitchStmt
 	for _, s := range fd.Body.List {
@@ -146,7 +195,33 @@ func (r *pxRoles) opMaps() []*pxOpMap {
 			continue
 		}
 		om := &pxOpMap{fn: fn, fd: fd, enum: en, m: map[string]string{}}
+		// the conversion as a relation kind → operator: evaluated per token kind (a switch,
+		// an if-chain and a map literal denote the same table); kinds the evaluator cannot
+		// decide are read from the switch below
+		evalOK := false
+		if in := pxParamObj(info, fd, 0); in != nil {
+			evalOK = true
+			dom := map[string]string{}
+			panics := false
+			for _, k := range r.kindEnum.Consts {
+				res := pxEvalOn(r.c, fd, in, k)
+				switch {
+				case res.ok && len(res.vals) == 1 && res.vals[0].k == ovConst && res.vals[0].c != nil && types.Identical(res.vals[0].c.Type(), en):
+					dom[r.canonKindConst(k)] = res.vals[0].c.Name()
+				case res.panics:
+					panics = true
+				default:
+					evalOK = false
+				}
+			}
+			if evalOK {
+				om.m, om.panics = dom, panics
+			}
+		}
 		for _, s := range fd.Body.List {
+			if evalOK {
+				break
+			}
 			sw, ok := s.(*ast.SwitchStmt)
 			if !ok || sw.Tag == nil {
 				continue
@@ -205,6 +280,34 @@ func pxStringerTable(info *types.Info, pkg *types.Package, t *types.Named) map[s
 	if fd == nil || fd.Body == nil {
 		return out
 	}
+	// the table the method denotes: evaluate it on every constant of the enum (switch,
+	// if-chain, map literal, named string constants all give the same rows); the
+	// syntactic reading below only fills in constants the evaluator cannot decide
+	undecided := map[string]bool{}
+	if c := pxCtxOfInfo[info]; c != nil {
+		if e := c.EnumOf(t); e != nil {
+			recv := pxRecvObj(info, fd)
+			for _, k := range e.Consts {
+				res := pxEvalOn(c, fd, recv, k)
+				switch {
+				case res.ok && len(res.vals) == 1:
+					if s, isStr := pxValString(res.vals[0]); isStr {
+						out[k.Name()] = s
+						continue
+					}
+					undecided[k.Name()] = true
+				case res.panics:
+					// no row: printing this operator panics
+				default:
+					undecided[k.Name()] = true
+				}
+			}
+			if len(undecided) == 0 {
+				return out
+			}
+		}
+	}
+	evaluated := len(out) > 0 || len(undecided) > 0
 	ast.Inspect(fd.Body, func(n ast.Node) bool {
 		cc, ok := n.(*ast.CaseClause)
 		if !ok || cc.List == nil {
@@ -231,7 +334,7 @@ func pxStringerTable(info *types.Info, pkg *types.Package, t *types.Named) map[s
 		}
 		if found {
 			for _, e := range cc.List {
-				if k := ConstOf(info, e); k != nil {
+				if k := ConstOf(info, e); k != nil && (!evaluated || undecided[k.Name()]) {
 					out[k.Name()] = lit
 				}
 			}
@@ -242,6 +345,7 @@ func pxStringerTable(info *types.Info, pkg *types.Package, t *types.Named) map[s
 }
 
 var pxDeclIndex = map[*types.Info]map[*types.Func]*ast.FuncDecl{}
+var pxCtxOfInfo = map[*types.Info]*Ctx{}
 
 func pxFuncDeclOf(info *types.Info, f *types.Func) *ast.FuncDecl {
 	return pxDeclIndex[info][f]
@@ -259,6 +363,7 @@ func pxIndexDecls(c *Ctx) {
 			}
 		}
 		pxDeclIndex[p.TypesInfo] = m
+		pxCtxOfInfo[p.TypesInfo] = c
 	}
 }
 
@@ -434,8 +539,8 @@ func rulePrec(c *Ctx) []Obligation {
 	ekey := pxDeclKey(r.pkg, exprFd)
 	{
 		var fails []string
-		cond := ast.Unparen(loop.Cond).(*ast.BinaryExpr)
-		x, y, op := cond.X, cond.Y, cond.Op
+		cc := r.climbCondOf(loop, func(o types.Object) bool { return o == precParam })
+		x, y, op := cc.x, cc.y, cc.op
 		if id, ok := ast.Unparen(y).(*ast.Ident); !ok || r.info.Uses[id] != precParam {
 			// operands swapped
 			x, y = y, x
@@ -451,17 +556,14 @@ func rulePrec(c *Ctx) []Obligation {
 			}
 		}
 		if op != token.GTR {
-			fails = append(fails, fmt.Sprintf("the loop continues while `%s`: it must be the strict `left > %s` — with >= an operator of equal power met in the recursive call is taken there, which flips the associativity of every level", exprStr(loop.Cond), precParam.Name()))
+			fails = append(fails, fmt.Sprintf("the loop continues while `%s`: it must be the strict `left > %s` — with >= an operator of equal power met in the recursive call is taken there, which flips the associativity of every level", cc.text, precParam.Name()))
 		}
 		leftVar, _ := ast.Unparen(x).(*ast.Ident)
 		var lobj types.Object
 		if leftVar != nil {
 			lobj = r.info.Uses[leftVar]
 		}
-		for _, part := range []struct {
-			s    ast.Stmt
-			name string
-		}{{loop.Init, "init"}, {loop.Post, "post"}} {
+		for _, part := range cc.loads {
 			as, ok := part.s.(*ast.AssignStmt)
 			good := false
 			if ok && len(as.Lhs) == 2 && len(as.Rhs) == 1 {
@@ -479,19 +581,24 @@ func rulePrec(c *Ctx) []Obligation {
 				fails = append(fails, fmt.Sprintf("the loop's %s statement does not (re)load the compared variable from the FIRST (left) result of <current token>.Kind.Prec()", part.name))
 			}
 		}
-		add(ekey+"|(b) loop continues while left(current) > minimum, strictly", c.Pos(loop.Pos()), fails, fmt.Sprintf("for %s; %s; %s", pxStmtStr(loop.Init), exprStr(loop.Cond), pxStmtStr(loop.Post)))
+		okDetail := fmt.Sprintf("for %s; %s; %s", pxStmtStr(loop.Init), exprStr(loop.Cond), pxStmtStr(loop.Post))
+		if cc.inBody {
+			okDetail = fmt.Sprintf("for { %s; if !(%s) { break }; … }", pxStmtStr(cc.loads[0].s), cc.text)
+		}
+		add(ekey+"|(b) loop continues while left(current) > minimum, strictly", c.Pos(loop.Pos()), fails, okDetail)
 	}
 
 	// ---- (e) switch coverage + (c) operand powers + (f) conversion domains
-	var sw *ast.SwitchStmt
-	for _, s := range loop.Body.List {
-		if x, ok := s.(*ast.SwitchStmt); ok && x.Tag != nil && r.isCurKind(r.info, x.Tag) {
-			sw = x
-		}
-	}
+	// the dispatch: the switch over the current token kind the loop body runs — written in
+	// the body or in a parser method the body calls (extracted loop body)
+	sw, swHost := r.dispatchSwitch(exprFd, loop.Body)
 	if sw == nil {
-		obs = append(obs, Obligation{Key: ekey + "|(e) loop switch", Pos: c.Pos(loop.Pos()), Status: Undecided, Detail: "the loop body has no switch over the current token kind"})
+		obs = append(obs, Obligation{Key: ekey + "|(e) loop switch", Pos: c.Pos(loop.Pos()), Status: Undecided, Detail: "neither the loop body nor the parser methods it calls switch over the current token kind"})
 		return obs
+	}
+	eng := pxPrecEngineOf(c, r, exprFn, precParam)
+	if eng.e == nil {
+		obs = append(obs, Obligation{Key: "summary|operand powers decided without the provenance engine", Pos: "-", Status: Info, Detail: "the r2parse provenance engine is unavailable (" + eng.why + "): (c), (d), (f) read the builders directly"})
 	}
 	branched := map[string]*ast.CaseClause{}
 	for _, cl := range sw.Body.List {
@@ -573,24 +680,27 @@ func rulePrec(c *Ctx) []Obligation {
 			continue
 		}
 		fd := r.decls[u.callee]
-		// which conversion does the callee (or the clause) apply to the current kind?
+		// which conversion does the callee (or the clause) apply to the token the clause dispatched on?
 		var conv *pxOpMap
-		for _, scope := range []ast.Node{fd.Body, u.cc} {
-			ast.Inspect(scope, func(n ast.Node) bool {
-				call, ok := n.(*ast.CallExpr)
-				if !ok || len(call.Args) != 1 || !r.isCurKind(r.info, call.Args[0]) {
-					return true
-				}
-				g := CalleeOf(r.info, call)
-				for _, m := range maps {
-					if m.fn == g {
-						conv = m
-					}
-				}
-				return true
-			})
+		if ms := eng.entryConversions(fd, maps); len(ms) > 0 {
+			conv = ms[0]
 		}
-		ck := pxDeclKey(r.pkg, fd)
+		ast.Inspect(u.cc, func(n ast.Node) bool {
+			call, ok := n.(*ast.CallExpr)
+			if !ok || len(call.Args) != 1 {
+				return true
+			}
+			if _, isCur := r.curKindRead(r.info, swHost, call.Args[0]); !isCur {
+				return true
+			}
+			g := CalleeOf(r.info, call)
+			for _, m := range maps {
+				if m.fn == g {
+					conv = m
+				}
+			}
+			return true
+		})
 		if conv != nil {
 			var fails []string
 			if miss := isSubset(u.kinds, conv.m); len(miss) > 0 {
@@ -609,65 +719,51 @@ func rulePrec(c *Ctx) []Obligation {
 			sort.Strings(fails)
 			add(ekey+"|(f) clause → "+u.callee.Name()+" only receives kinds "+conv.fn.Name()+" converts", c.Pos(u.cc.Pos()), fails, fmt.Sprintf("%d kinds ⊆ domain of %s (%d)", len(u.kinds), conv.fn.Name(), len(conv.m)))
 		}
-		if conv == infixMap || conv == assignMap {
+	}
+	// ---- (c) operand powers of the infix / assignment builders. Decided on the calls of the
+	// climbing entry the builder makes — directly or through transparent wrappers of it
+	// (the provenance engine of R-prec-operand-source, which decides the same per path).
+	for _, conv := range []*pxOpMap{infixMap, assignMap} {
+		builders := eng.buildersOf(r, conv)
+		if len(builders) > 0 {
 			checkedRight++
+		}
+		for _, fd := range builders {
+			ck := pxDeclKey(r.pkg, fd)
 			var fails []string
-			// the recursive call expression(<v>)
-			var rec *ast.CallExpr
-			ast.Inspect(fd.Body, func(n ast.Node) bool {
-				if call, ok := n.(*ast.CallExpr); ok && CalleeOf(r.info, call) == exprFn && rec == nil {
-					rec = call
-				}
-				return true
-			})
-			if rec == nil || len(rec.Args) != 1 {
-				fails = append(fails, "does not parse its right operand with "+exprFn.Name()+"(<power>)")
-			} else {
-				arg, _ := ast.Unparen(rec.Args[0]).(*ast.Ident)
-				var def *ast.AssignStmt
-				var idx int
-				if arg != nil {
-					obj := r.info.Uses[arg]
-					ast.Inspect(fd.Body, func(n ast.Node) bool {
-						as, ok := n.(*ast.AssignStmt)
-						if !ok {
-							return true
-						}
-						for i, l := range as.Lhs {
-							if id, ok := l.(*ast.Ident); ok && (r.info.Defs[id] == obj && obj != nil) {
-								def, idx = as, i
-							}
-						}
-						return true
-					})
+			var calls []pxEntryCall
+			var undec []string
+			eng.stable(func() { calls, undec = eng.entryCalls(fd) })
+			okDetail := ""
+			if len(calls) == 0 {
+				fails = append(fails, "does not parse its right operand with "+exprFn.Name()+"(<power>) (directly or through a transparent wrapper of it)")
+			}
+			for _, ec := range calls {
+				pv := ec.pv
+				how := exprFn.Name()
+				if ec.via != "" {
+					how = ec.via + "() → " + exprFn.Name()
 				}
 				switch {
-				case arg == nil || def == nil:
-					fails = append(fails, fmt.Sprintf("the operand power %s is not a variable loaded from <current token>.Kind.Prec()", exprStr(rec.Args[0])))
-				case len(def.Rhs) != 1 || !r.isPrecOfCursor(def.Rhs[0]) || len(def.Lhs) != 2:
-					fails = append(fails, fmt.Sprintf("%s is not loaded from <current token>.Kind.Prec()", arg.Name))
-				case idx != 1:
-					fails = append(fails, fmt.Sprintf("the right operand is parsed with %s, the LEFT power of the operator (result #1 of Prec): for `**` (left>right) a following `**` is refused by the recursive call, so `a ** b ** c` groups as `(a ** b) ** c`", arg.Name))
+				case pv == nil:
+					fails = append(fails, how+" is called without a power")
+				case pv.k != r2parsePrecV:
+					fails = append(fails, fmt.Sprintf("the operand power %s is not loaded from <current token>.Kind.Prec()", pv))
+				case pv.idx != 1:
+					fails = append(fails, fmt.Sprintf("the right operand is parsed with %s, the LEFT power of the operator (result #1 of Prec): for `**` (left>right) a following `**` is refused by the recursive call, so `a ** b ** c` groups as `(a ** b) ** c`", pv))
+				case pv.at != nil && pv.at.off == 0 && pv.at.U == 0:
+					okDetail = "_, p := <current>.Kind.Prec(); next(); " + how + "(p)"
+				case pv.at != nil && pv.at.off == -1 && pv.at.D == 1 && pv.at.U == 1:
+					okDetail = "next(); _, p := <previous>.Kind.Prec(); " + how + "(p)"
 				default:
-					// captured before the operator is consumed
-					firstConsume := token.NoPos
-					ast.Inspect(fd.Body, func(n ast.Node) bool {
-						if call, ok := n.(*ast.CallExpr); ok && firstConsume == token.NoPos {
-							if g := CalleeOf(r.info, call); g != nil && r.decls[g] != nil && r.declPkg[g] == r.pkg && g.Type().(*types.Signature).Recv() != nil {
-								// any *Parser method may move the cursor
-								if call != rec {
-									firstConsume = call.Pos()
-								}
-							}
-						}
-						return true
-					})
-					if firstConsume != token.NoPos && def.Pos() > firstConsume {
-						fails = append(fails, fmt.Sprintf("%s is read at %s, after the operator token was consumed at %s: it is the power of the token FOLLOWING the operator", arg.Name, c.Pos(def.Pos()), c.Pos(firstConsume)))
-					}
+					fails = append(fails, fmt.Sprintf("the power passed at %s is read from the %s: it is the power of a token FOLLOWING the operator", c.Pos(ec.call.Pos()), pv.at))
 				}
 			}
-			add(ck+"|(c) right operand parsed with the operator's right power, read before it is consumed", c.Pos(fd.Pos()), fails, "_, p := <current>.Kind.Prec(); next(); "+exprFn.Name()+"(p)")
+			if len(fails) == 0 && len(undec) > 0 {
+				obs = append(obs, Obligation{Key: ck + "|(c) right operand parsed with the operator's right power, read before it is consumed", Pos: c.Pos(fd.Pos()), Status: Undecided, Nontrivial: true, Detail: strings.Join(undec, "; ")})
+				continue
+			}
+			add(ck+"|(c) right operand parsed with the operator's right power, read before it is consumed", c.Pos(fd.Pos()), pxDedupe(fails), okDetail)
 		}
 	}
 	// (f) for every other switch over the current token kind in the parser
@@ -689,7 +785,7 @@ func rulePrec(c *Ctx) []Obligation {
 			fd := r.decls[fn]
 			n := 0
 			ast.Inspect(fd.Body, func(nd ast.Node) bool {
-				if x, ok := nd.(*ast.SwitchStmt); ok && x.Tag != nil && r.isCurKind(r.info, x.Tag) {
+				if x, ok := nd.(*ast.SwitchStmt); ok && x.Tag != nil && pxIsCurKindTag(r, fd, x.Tag) {
 					n++
 					if x != sw {
 						items = append(items, item{fd, x, n})
@@ -723,27 +819,12 @@ func rulePrec(c *Ctx) []Obligation {
 						}
 						var conv *pxOpMap
 						if gfd := r.decls[g]; gfd != nil && r.declPkg[g] == r.pkg {
-							// conversion applied by the callee to the (still unconsumed) current kind
-							firstMethod := token.NoPos
-							ast.Inspect(gfd.Body, func(m ast.Node) bool {
-								c2, ok := m.(*ast.CallExpr)
-								if !ok {
-									return true
-								}
-								h := CalleeOf(r.info, c2)
-								if h != nil && r.decls[h] != nil && r.declPkg[h] == r.pkg && h.Type().(*types.Signature).Recv() != nil && firstMethod == token.NoPos {
-									firstMethod = c2.Pos()
-								}
-								if len(c2.Args) == 1 && r.isCurKind(r.info, c2.Args[0]) && (firstMethod == token.NoPos || c2.Pos() < firstMethod) {
-									for _, m := range maps {
-										if m.fn == h {
-											conv = m
-										}
-									}
-								}
-								return true
-							})
-						} else if len(call.Args) == 1 && r.isCurKind(r.info, call.Args[0]) {
+							// conversion applied by the callee to the token that is current when it is entered
+							// (read directly, through a local, or from the look-behind field right after it was consumed)
+							if ms := eng.entryConversions(gfd, maps); len(ms) > 0 {
+								conv = ms[0]
+							}
+						} else if _, isCur := r.curKindRead(r.info, it.fd, pxFirstArg(call)); isCur && len(call.Args) == 1 {
 							for _, m := range maps {
 								if m.fn == g {
 									conv = m
@@ -774,37 +855,27 @@ func rulePrec(c *Ctx) []Obligation {
 		obs = append(obs, Obligation{Key: ekey + "|(c) infix and assignment clauses found", Pos: c.Pos(sw.Pos()), Status: Undecided, Detail: fmt.Sprintf("only %d of the two operand-parsing functions (infix, assignment) were identified", checkedRight)})
 	}
 
-	// ---- (d) prefix operand constant
+	// ---- (d) prefix operand constant (calls of the climbing entry made by the prefix builder,
+	// directly or through transparent wrappers)
 	{
-		var prefFd *ast.FuncDecl
-		for fn, fd := range r.decls {
-			if r.declPkg[fn] != r.pkg {
-				continue
-			}
-			ast.Inspect(fd.Body, func(n ast.Node) bool {
-				if call, ok := n.(*ast.CallExpr); ok && CalleeOf(r.info, call) == prefixMap.fn {
-					prefFd = fd
-				}
-				return true
-			})
-		}
-		if prefFd == nil {
+		prefBuilders := eng.buildersOf(r, prefixMap)
+		if len(prefBuilders) == 0 {
 			obs = append(obs, Obligation{Key: "parser|(d) prefix operand power", Pos: "-", Status: Undecided, Detail: "no parser function applies " + prefixMap.fn.Name()})
-		} else {
+		}
+		for _, prefFd := range prefBuilders {
 			var fails []string
-			n := 0
-			ast.Inspect(prefFd.Body, func(nd ast.Node) bool {
-				call, ok := nd.(*ast.CallExpr)
-				if !ok || CalleeOf(r.info, call) != exprFn || len(call.Args) != 1 {
-					return true
+			var calls []pxEntryCall
+			var undec []string
+			eng.stable(func() { calls, undec = eng.entryCalls(prefFd) })
+			key := pxDeclKey(r.pkg, prefFd) + "|(d) prefix operand power between binary levels and call/index/member"
+			okDetail, okPos := "", c.Pos(prefFd.Pos())
+			for _, ec := range calls {
+				P, isConst := pxConstInt(ec.pv)
+				if !isConst {
+					fails = append(fails, fmt.Sprintf("the prefix operand power %s is not a constant", ec.pv))
+					continue
 				}
-				n++
-				tv := r.info.Types[call.Args[0]]
-				if tv.Value == nil {
-					fails = append(fails, "the prefix operand power "+exprStr(call.Args[0])+" is not a constant")
-					return true
-				}
-				P, _ := constant.Int64Val(constant.ToInt(tv.Value))
+				before := len(fails)
 				if P < maxBinary {
 					for _, L := range levels {
 						if L.ok && L.hi > P {
@@ -818,17 +889,21 @@ func rulePrec(c *Ctx) []Obligation {
 						fails = append(fails, fmt.Sprintf("operand power %d is not below the left power %d of %s (%q): `-a%sb…` would apply the prefix operator first", P, table[k].l, k, r.display[k], r.display[k]))
 					}
 				}
-				if len(fails) == 0 {
-					obs = append(obs, Obligation{Key: pxDeclKey(r.pkg, prefFd) + "|(d) prefix operand power between binary levels and call/index/member", Pos: c.Pos(call.Pos()), Status: Discharged, Nontrivial: true,
-						Detail: fmt.Sprintf("max binary power %d <= %d < call/index left %d, member left %d", maxBinary, P, table[callK].l, table[memberKs[0]].l)})
+				if len(fails) == before {
+					okDetail = fmt.Sprintf("max binary power %d <= %d < call/index left %d, member left %d", maxBinary, P, table[callK].l, table[memberKs[0]].l)
+					okPos = c.Pos(ec.call.Pos())
 				}
-				return true
-			})
-			if n == 0 {
-				fails = append(fails, "the prefix function never calls "+exprFn.Name())
 			}
-			if len(fails) > 0 {
-				obs = append(obs, Obligation{Key: pxDeclKey(r.pkg, prefFd) + "|(d) prefix operand power between binary levels and call/index/member", Pos: c.Pos(prefFd.Pos()), Status: Violated, Nontrivial: true, Detail: strings.Join(fails, "; ")})
+			if len(calls) == 0 {
+				fails = append(fails, "the prefix function never calls "+exprFn.Name()+" (directly or through a transparent wrapper of it)")
+			}
+			switch {
+			case len(fails) > 0:
+				obs = append(obs, Obligation{Key: key, Pos: c.Pos(prefFd.Pos()), Status: Violated, Nontrivial: true, Detail: strings.Join(pxDedupe(fails), "; ")})
+			case len(undec) > 0:
+				obs = append(obs, Obligation{Key: key, Pos: c.Pos(prefFd.Pos()), Status: Undecided, Nontrivial: true, Detail: strings.Join(undec, "; ")})
+			default:
+				obs = append(obs, Obligation{Key: key, Pos: okPos, Status: Discharged, Nontrivial: true, Detail: okDetail})
 			}
 		}
 	}
@@ -839,20 +914,14 @@ func rulePrec(c *Ctx) []Obligation {
 		for _, u := range uses {
 			if len(u.kinds) == 1 && u.kinds[0] == rangeK && u.callee != nil {
 				fd := r.decls[u.callee]
-				ast.Inspect(fd.Body, func(nd ast.Node) bool {
-					call, ok := nd.(*ast.CallExpr)
-					if !ok || CalleeOf(r.info, call) != exprFn || len(call.Args) != 1 {
-						return true
+				var calls []pxEntryCall
+				eng.stable(func() { calls, _ = eng.entryCalls(fd) })
+				for _, ec := range calls {
+					if P, isConst := pxConstInt(ec.pv); isConst && P != rp.r {
+						obs = append(obs, Obligation{Key: pxDeclKey(r.pkg, fd) + "|range upper bound power", Pos: c.Pos(ec.call.Pos()), Status: Info,
+							Detail: fmt.Sprintf("the upper bound of `..` is parsed with power %d, not with the table's right power %d: `a..b = c` and `a..b..c` group to the right and `x + 1..2 * 3` is `x + (1..(2*3))`. Range is not one of the levels C07 states, so this is reported, not failed", P, rp.r)})
 					}
-					if tv := r.info.Types[call.Args[0]]; tv.Value != nil {
-						P, _ := constant.Int64Val(constant.ToInt(tv.Value))
-						if P != rp.r {
-							obs = append(obs, Obligation{Key: pxDeclKey(r.pkg, fd) + "|range upper bound power", Pos: c.Pos(call.Pos()), Status: Info,
-								Detail: fmt.Sprintf("the upper bound of `..` is parsed with power %d, not with the table's right power %d: `a..b = c` and `a..b..c` group to the right and `x + 1..2 * 3` is `x + (1..(2*3))`. Range is not one of the levels C07 states, so this is reported, not failed", P, rp.r)})
-						}
-					}
-					return true
-				})
+				}
 			}
 		}
 	}
@@ -900,11 +969,7 @@ func (r *pxRoles) isPrecOfCursor(e ast.Expr) bool {
 		return false
 	}
 	fn := CalleeOf(r.info, call)
-	if fn == nil || fn.Name() != "Prec" {
-		return false
-	}
-	sig := fn.Type().(*types.Signature)
-	if sig.Recv() == nil || !types.Identical(sig.Recv().Type(), r.kindT) {
+	if fn == nil || fn != r.powerFn() {
 		return false
 	}
 	sel, ok := ast.Unparen(call.Fun).(*ast.SelectorExpr)
@@ -936,19 +1001,14 @@ func (r *pxRoles) findClimbingLoop() (*ast.FuncDecl, *ast.ForStmt, types.Object)
 		}
 		ast.Inspect(fd.Body, func(n ast.Node) bool {
 			f, ok := n.(*ast.ForStmt)
-			if !ok || f.Cond == nil {
-				return true
-			}
-			b, ok := ast.Unparen(f.Cond).(*ast.BinaryExpr)
 			if !ok {
 				return true
 			}
-			switch b.Op {
-			case token.GTR, token.GEQ, token.LSS, token.LEQ:
-			default:
+			cc := r.climbCondOf(f, func(o types.Object) bool { return params[o] })
+			if cc == nil {
 				return true
 			}
-			for _, side := range []ast.Expr{b.X, b.Y} {
+			for _, side := range []ast.Expr{cc.x, cc.y} {
 				if id, ok := ast.Unparen(side).(*ast.Ident); ok && params[r.info.Uses[id]] {
 					// the loop must mention Prec() in init/post/body
 					mentions := false
@@ -967,4 +1027,139 @@ func (r *pxRoles) findClimbingLoop() (*ast.FuncDecl, *ast.ForStmt, types.Object)
 		})
 	}
 	return outFd, outLoop, outParam
+}
+
+func pxFirstArg(call *ast.CallExpr) ast.Expr {
+	if len(call.Args) == 0 {
+		return nil
+	}
+	return call.Args[0]
+}
+
+func pxIsCurKindTag(r *pxRoles, fd *ast.FuncDecl, tag ast.Expr) bool {
+	_, ok := r.curKindRead(r.info, fd, tag)
+	return ok
+}
+
+// pxClimbCond: the condition under which the climbing loop goes on, whether it
+// is the `for` condition (`for l, _ := P(); l > p; l, _ = P()`) or an exit test at the top of
+// the body (`for { l, _ := P(); if l <= p { break }; … }`), and the statements that must load
+// the compared variable before each evaluation of it.
+type pxClimbCond struct {
+	x, y   ast.Expr
+	op     token.Token // comparison under which the loop CONTINUES
+	text   string
+	inBody bool
+	loads  []struct {
+		s    ast.Stmt
+		name string
+	}
+}
+
+func (r *pxRoles) climbCondOf(f *ast.ForStmt, isParam func(types.Object) bool) *pxClimbCond {
+	ordering := func(e ast.Expr) (*ast.BinaryExpr, bool) {
+		neg := false
+		for {
+			e = ast.Unparen(e)
+			if u, ok := e.(*ast.UnaryExpr); ok && u.Op == token.NOT {
+				neg, e = !neg, u.X
+				continue
+			}
+			break
+		}
+		b, ok := e.(*ast.BinaryExpr)
+		if !ok {
+			return nil, false
+		}
+		switch b.Op {
+		case token.GTR, token.GEQ, token.LSS, token.LEQ:
+			return b, neg
+		}
+		return nil, false
+	}
+	negate := func(t token.Token) token.Token {
+		switch t {
+		case token.GTR:
+			return token.LEQ
+		case token.GEQ:
+			return token.LSS
+		case token.LSS:
+			return token.GEQ
+		case token.LEQ:
+			return token.GTR
+		}
+		return t
+	}
+	mentionsParam := func(b *ast.BinaryExpr) bool {
+		for _, side := range []ast.Expr{b.X, b.Y} {
+			if id, ok := ast.Unparen(side).(*ast.Ident); ok && isParam(r.info.Uses[id]) {
+				return true
+			}
+		}
+		return false
+	}
+	type load = struct {
+		s    ast.Stmt
+		name string
+	}
+	if f.Cond != nil {
+		b, neg := ordering(f.Cond)
+		if b == nil || !mentionsParam(b) {
+			return nil
+		}
+		op := b.Op
+		if neg {
+			op = negate(op)
+		}
+		return &pxClimbCond{x: b.X, y: b.Y, op: op, text: exprStr(f.Cond), loads: []load{{f.Init, "init"}, {f.Post, "post"}}}
+	}
+	// `for { … if <exit> { break } … }`: the exit test must come before anything is consumed,
+	// i.e. be preceded only by plain assignments
+	for i, s := range f.Body.List {
+		switch x := s.(type) {
+		case *ast.AssignStmt:
+			continue
+		case *ast.IfStmt:
+			if x.Init != nil || x.Else != nil || len(x.Body.List) != 1 {
+				return nil
+			}
+			br, ok := x.Body.List[0].(*ast.BranchStmt)
+			if !ok || br.Tok != token.BREAK {
+				return nil
+			}
+			b, neg := ordering(x.Cond)
+			if b == nil || !mentionsParam(b) {
+				return nil
+			}
+			op := b.Op // exit condition
+			if neg {
+				op = negate(op)
+			}
+			cc := &pxClimbCond{x: b.X, y: b.Y, op: negate(op), inBody: true, text: "!(" + exprStr(x.Cond) + ")"}
+			// the load: the last assignment before the test that defines an operand of the comparison
+			var ld ast.Stmt
+			for _, p := range f.Body.List[:i] {
+				if as, ok := p.(*ast.AssignStmt); ok {
+					for _, l := range as.Lhs {
+						if id, ok := l.(*ast.Ident); ok {
+							o := r.info.ObjectOf(id)
+							for _, side := range []ast.Expr{b.X, b.Y} {
+								if sid, ok := ast.Unparen(side).(*ast.Ident); ok && o != nil && r.info.Uses[sid] == o {
+									ld = as
+								}
+							}
+						}
+					}
+				}
+			}
+			if ld == nil {
+				ld = &ast.EmptyStmt{}
+			}
+			cc.loads = []load{{ld, "top-of-body"}}
+			return cc
+		default:
+			return nil
+		}
+	}
+	return nil
 }
